@@ -422,3 +422,8 @@ _app("C03", "note", " Tie (T), second unit: list(<set>) and sorted(edges) are ar
 _app("C05", "note", " Since the Q-to-R bridge of the sub-model sender runner was appended, the cone of props/C05.v imports Reals: the timing / sub-model theorems proper are still closed under the global context, the bridge theorems carry the two Reals axioms (sig_forall_dec, functional_extensionality_dep).")
 _app("C03", "text", " merge of ops.py is translated too (py2coq_ops v2 over base/PyColl4.v): the generated merge hands Model(...) / update_graph exactly the node and edge sets of the model's merge, "
      "compared as sets, with its ValueError / TypeError cases (C03_generated_merge_*); link and the Model constructor / update_graph remain on hand model + correspondence.")
+_app("C07", "text", " Model._call and Model.call are translated on every run as well (tools/vlib/py2coq_mcall.py -> coq/gen/Gen_mcall.v): with the generated dispatch of C02 as self._forward the generated _call "
+     "equals ModelSem.step and the one-step run_op for every model, input, forced feedback and return_states selection; the generated call composition equals run_op for every flag and both outcomes "
+     "(C07_generated_model_call_*).")
+_app("C07", "note", " Tie (T) for Model._call / call: pins are submodel = None at all call sites, __getitem__ = get_node, the check_xy head and copying return of call; in the call theorem the callees "
+     "(with_state, _load_proxys, with_feedback, _clean_proxys) are read by the hand semantics of proofs/Gen_mcall_eq.v Part C (accepted input, initialised model); Model._run / run stay on tie (H).")
